@@ -144,7 +144,27 @@ def parse_version(value: str) -> tuple[int, int, int]:
             f"MAJOR.MINOR.PATCH with non-negative integers and no leading zeros "
             f"(no prereleases or build metadata)."
         )
-    return (int(m.group(1)), int(m.group(2)), int(m.group(3)))
+    return (_component(m.group(1)), _component(m.group(2)), _component(m.group(3)))
+
+
+_COMPONENT_CHUNK_DIGITS = 4000
+
+
+def _component(digits: str) -> int:
+    """Value of one canonical version component.
+
+    CPython refuses ``int(str)`` beyond ``sys.get_int_max_str_digits()``
+    (4300 digits by default) with a ``ValueError``; the semver grammar has no
+    such bound, so longer components are converted in chunks instead of being
+    reported as malformed.
+    """
+    if len(digits) <= _COMPONENT_CHUNK_DIGITS:
+        return int(digits)
+    value = 0
+    for start in range(0, len(digits), _COMPONENT_CHUNK_DIGITS):
+        chunk = digits[start : start + _COMPONENT_CHUNK_DIGITS]
+        value = value * 10 ** len(chunk) + int(chunk)
+    return value
 
 
 # W3C trace context propagation (on request batch custom metadata)
